@@ -910,6 +910,10 @@ func (t *State) verifyDAGTxs(blockHeight int64, txs []*pb.Transaction, isRootTx 
 					if isRelyOnMarkedTx {
 						if !ok || err != nil {
 							t.log.Warn("tx verification failed because it is blocked tx", "err", err)
+							if err == nil {
+								// a negative verdict without error is still a rejection
+								err = errors.New("dotx failed, tx relies on a marked tx")
+							}
 						} else {
 							t.log.Trace("blocked tx verification succeed")
 						}
